@@ -89,6 +89,11 @@ def c16():
     return [replcheck.ReplAgrees()]
 
 
+def c12():
+    from harness import debugger
+    return [debugger.TraceFaithful()]
+
+
 def c03():
     from harness import symtab, pipeline
     return [symtab.SymbolTable(), pipeline.ClassicBuilds()]
@@ -108,6 +113,7 @@ REGISTRY = {
     'C14': dict(harnesses=c14, run=_runner('C14', c14)),
     'C02': dict(harnesses=c02, run=_runner('C02', c02)),
     'C03': dict(harnesses=c03, run=_runner('C03', c03)),
+    'C12': dict(harnesses=c12, run=_runner('C12', c12)),
     'C16': dict(harnesses=c16, run=_runner('C16', c16)),
     'C10': dict(harnesses=c10, run=_runner('C10', c10)),
     'C17': dict(harnesses=c17, run=_runner('C17', c17)),
